@@ -14,8 +14,9 @@
   (A) model theorems — for every source timeline and every environment that respects "never early":
       the run satisfies the clause (so it is accepted);
   (B) acceptor soundness — `accepts cfg trace = true →` the plain-words statement for the operator;
-  (C) deviations of the pinned tree, as witness theorems: `IntervalWithInitial(0, p)` (always Error),
-      `IntervalWithInitial(i, p)` with `p > i` (the `2·i` ticker races the initial timer).
+  (C) deviation of the tree, as witness theorems: the unlock-then-emit window of `BufferWithTimeOrCount`.
+      (`IntervalWithInitial(0, p)` errored and `IntervalWithInitial(i, p)`, `p > i`, raced its `2·i` ticker
+      against the initial timer until /repo commit 6a7ef90; the model is the repaired code and the theorem is full.)
 
   The tie to the real code is ACCEPTANCE: go/harness/timed.go runs the real operators in real time
   and `accepts` (B) must accept every observed trace — weaker than equality of outputs.
@@ -62,15 +63,25 @@ theorem range_model_accepted (r : RangeRun) (h : RangeWF r) :
     accepts { op := .rangeWithInterval, d := r.p, a := r.a, b := r.b } (rangeTrace r) = true :=
   range_model_accepts r h
 
-/-- IntervalWithInitial, PARTIAL (`0 < initial`, `interval ≤ initial`): value k never before
-    `initial + k·interval`. The full statement fails on the pinned tree: (C) below. -/
-theorem intervalWithInitial_partial (r : IwiRun) (hi : 0 < r.i) (hp : r.p ≤ r.i)
+/-- IntervalWithInitial, every `initial ≥ 0` and every `interval > 0`: value k never before
+    `initial + k·interval`, never an Error. (Partial before 6a7ef90: `initial = 0` errored, `interval > initial` raced.) -/
+theorem intervalWithInitial_never_early (r : IwiRun) (hp : 0 < r.p)
     (hstop : ∀ c x, r.stop = some (c, x) → c ≤ x)
-    (hfair : ∀ c x s, r.stop = some (c, x) → iwiRunFrom r.sub r.i r.p (iwiInit r.sub r.i) r.evs = some s →
+    (hfair : ∀ c x s, r.stop = some (c, x) → iwiRunFrom r.sub r.i r.p (iwiInit r.sub r.i r.p r.first) r.evs = some s →
       (s.out.filter (fun o => decide (c < o.1))).length ≤ cancelSlack)
     (tr : TimedTrace) (htr : iwiTrace r = some tr) :
     Clause { op := .intervalWithInitial, d := r.p, d2 := r.i } tr :=
-  iwi_model_clause_partial r hi hp hstop hfair tr htr
+  iwi_model_clause r hp hstop hfair tr htr
+
+/-- the repaired ticker is silent until `Reset`: no environment makes a tick precede the timer branch -/
+theorem intervalWithInitial_no_tick_before_reset (sub i p first : Nat) (hi : 0 < i) (t : Time) (evs : List IwiEv) :
+    iwiRunFrom sub i p (iwiInit sub i p first) (.tick t :: evs) = none :=
+  iwi_no_tick_before_reset sub i p first hi t evs
+
+/-- `initial = 0`: value 0 is sent at once by Subscribe itself (no Error any more) -/
+theorem intervalWithInitial_zero_emits_at_once (p sub first : Nat) :
+    (iwiTrace { i := 0, p := p + 1, sub := sub, first := sub + first, evs := [], stop := none, unsub := none }).map (·.dels)
+      = some [Ev.at (sub + first) (.next 0)] := iwi_zero_emits_at_once p sub first
 
 /-- Timeout: error only after a full quiet period measured from the end of the last forwarded Next;
     forwarded notifications are the source's in order; nothing after a terminal -/
@@ -192,25 +203,7 @@ theorem accepted_buffer {cfg : Cfg} {tr : TimedTrace} (cnt : Option Nat)
       ∧ tr.sub + (k + 1 - extraFlushes cnt tr dl.t0) * cfg.d ≤ dl.t0 :=
   accepts_buffer cnt hop h hk vs hv
 
-/-! ### (C) deviations of the pinned tree (known findings; replayed on the real code by the check) -/
-
-/-- `IntervalWithInitial(0, p)`: `time.NewTicker(initial*2)` panics before the `initial == 0` branch —
-    the subscription ends in an Error and never emits (doc: "first value emitted after `initial`") -/
-theorem intervalWithInitial_zero_witness (p sub : Nat) (evs : List IwiEv) :
-    (iwiTrace { i := 0, p := p, sub := sub, evs := evs, stop := none, unsub := none }).map (·.dels)
-      = some [Ev.at sub (.error errOther)] := iwi_zero_errors p sub evs
-
-theorem intervalWithInitial_zero_rejected (p sub : Nat) (evs : List IwiEv) (tr : TimedTrace)
-    (h : iwiTrace { i := 0, p := p, sub := sub, evs := evs, stop := none, unsub := none } = some tr) :
-    ¬ Clause { op := .intervalWithInitial, d := p, d2 := 0 } tr := iwi_zero_rejected p sub evs tr h
-
-/-- `IntervalWithInitial(1, 10)`: a possible run (no timer early) delivers value 1 at instant 2,
-    nine units before `initial + interval` -/
-theorem intervalWithInitial_race_witness :
-    ∃ tr, iwiTrace { i := 1, p := 10, sub := 0, evs := [.oldTick 2, .timer 2], stop := none, unsub := none } = some tr
-      ∧ tr.dels = [Ev.at 2 (.next 0), Ev.at 2 (.next 1)]
-      ∧ ¬ Clause { op := .intervalWithInitial, d := 10, d2 := 1 } tr :=
-  ⟨_, rfl, by decide, by decide⟩
+/-! ### (C) deviation of the tree (known finding, recognised by its class) -/
 
 /-- time buffers, unlock-then-emit window (C05's, by reading; micro-step witness only) -/
 theorem buffer_window_witness :
@@ -243,7 +236,9 @@ end Ro.C16
 #print axioms Ro.C16.interval_model_accepted
 #print axioms Ro.C16.timer_model_accepted
 #print axioms Ro.C16.range_model_accepted
-#print axioms Ro.C16.intervalWithInitial_partial
+#print axioms Ro.C16.intervalWithInitial_never_early
+#print axioms Ro.C16.intervalWithInitial_no_tick_before_reset
+#print axioms Ro.C16.intervalWithInitial_zero_emits_at_once
 #print axioms Ro.C16.timeout_sound
 #print axioms Ro.C16.timeout_model_accepted
 #print axioms Ro.C16.throttle_spacing
@@ -269,8 +264,5 @@ end Ro.C16
 #print axioms Ro.C16.accepted_throttle
 #print axioms Ro.C16.accepted_sample
 #print axioms Ro.C16.accepted_buffer
-#print axioms Ro.C16.intervalWithInitial_zero_witness
-#print axioms Ro.C16.intervalWithInitial_zero_rejected
-#print axioms Ro.C16.intervalWithInitial_race_witness
 #print axioms Ro.C16.buffer_window_witness
 #print axioms Ro.C16.buffer_window_observed
